@@ -118,6 +118,30 @@ def wide_consts(w=40):
 
 
 @design
+def const_select(w=3):
+    """muxes whose select operand is a constant (elaboration-time flags), both polarities and both forms"""
+    a, b = _io([w, w])
+    _out(pyrtl.select(pyrtl.Const(1, bitwidth=1), a, b), 'out0')
+    _out(pyrtl.select(pyrtl.Const(0, bitwidth=1), a, b), 'out1')
+    _out(pyrtl.select(True, a + 1, b), 'out2')
+    _out(pyrtl.select(0, a, b - 1), 'out3')
+    r = pyrtl.Register(w, 'acc', reset_value=5 % (2 ** w))
+    r.next <<= pyrtl.select(pyrtl.Const(1, bitwidth=1), (r + a)[:w], r)
+    _out(r, 'out4')
+
+
+@design
+def regs_same_next(w=4):
+    """registers fed by ONE next-state wire but reset to different values (no pass may merge them)"""
+    a, = _io([w])
+    nxt = (a + 1)[:w]
+    for i, nm in enumerate(['ra', 'rb', 'rc']):
+        r = pyrtl.Register(w, nm, reset_value=(3 * i + 1) % (2 ** w))
+        r.next <<= nxt
+        _out(r, 'out%d' % i)
+
+
+@design
 def reg_chain(w=3, n=6):
     """a delay line of registers fed directly by registers (several hops), and a swapped pair"""
     a, = _io([w])
@@ -508,6 +532,8 @@ def family(tier='quick', seed=0):
     add('regs_reset', w=4)
     add('reg_swap', w=2)
     add('reg_chain')
+    add('const_select')
+    add('regs_same_next')
     add('reg_chain', w=1, n=3)
     add('reg_const_next', w=2)
     add('reg_to_out', w=3)
@@ -537,7 +563,7 @@ def family(tier='quick', seed=0):
     add('repeat_args', w=2)
     add('repeat_args', w=1)
     add('mixed_alu', w=3)
-    n_rand = 12 if tier == 'quick' else 60
+    n_rand = 12 if tier == 'quick' else 240
     for s in range(n_rand):
         add('rand_design', seed=1000 * seed + s)
     return f
